@@ -24,6 +24,9 @@ fn c02_delivered_heights_small_chains() {
         d.write();
         let mut ranges: Vec<(u64, Option<u64>)> = vec![];
         for s in 0..=tip { ranges.push((s, None)); for e in (s + 1)..=(tip + 2) { ranges.push((s, Some(e))); } }
+        // ends far beyond the tip: the limits of every integer width, and values whose low 8 / 16 / 32 bits fall below the tip
+        for s in [0, tip / 2, tip] { for w in [8u32, 16, 31, 32, 53, 63] { for low in [0u64, 1, tip.saturating_sub(1), tip] { let e = (1u64 << w) + low; if e > s { ranges.push((s, Some(e))); } } }
+            for e in [u64::MAX, u64::MAX - 1, u32::MAX as u64, u32::MAX as u64 + 1, i64::MAX as u64, i64::MAX as u64 + 1] { ranges.push((s, Some(e))); } }
         for (s, e) in ranges {
             cases += 1;
             let last = match e { Some(e) if e < tip => e, _ => tip };
